@@ -9,13 +9,18 @@ package main
 //                  casbin.Enforcer used as the sequential specification (backtracking by replay)
 //   c13_forced.go  schedules forced deterministically through the library's own callbacks
 //                  (adapter, matcher function, logger), all inside the guards
+//   c13_cb.go      readers / writers parked inside USER callbacks (domain / role matching function,
+//                  link condition function, custom matcher function) at every depth; every read
+//                  compared with a quiescent twin enforcer; F20-exposed configurations probe-only
 //   c13_probe.go   dedicated probes for the known findings F19 (two-phase LoadPolicy) and
 //                  F20 (pattern role manager temp roles + g() memo)
 //
 // Guards of the main stream (so that it never trips over a known finding):
 //   * a history contains LoadPolicy only together with readers {Enforce, GetPolicy, HasPolicy}
 //     (F19: LoadPolicy is two critical sections);
-//   * no matching function / pattern model in the random stream (F20);
+//   * no matching function / pattern model in the random stream; in c13_cb.go a role matching
+//     function only where c13CbExposed proves that no read call creates a temporary role in a
+//     shared role manager (F20);
 //   * UpdatePolicy targets come from a reserved pool never used by Add and each at most once
 //     per history (F08 of C06: update to an already listed rule duplicates it).
 //
@@ -1096,8 +1101,14 @@ func init() {
 			"(same model text, same initial store) returns the recorded results and ends in the same policy, grouping policy and store content (order-sensitive); " +
 			"after quiescence memory == store (as sets) and every request of the universe decides as a fresh enforcer on the stored content. " +
 			"Forced stream: schedules pinned through the library's callbacks (adapter, AddFunction matcher function, log.Logger) with stamp assertions (who must wait for whom) plus the same checks. " +
+			"Callback-forced reader stream (c13_cb.go): on 7 configurations (plain / domain RBAC, with a domain matching function and a pattern domain `g, alice, admin, *`, with a role matching function, conditional role managers with link condition functions; " +
+			"every matcher calls a custom function before and after g()) a first call A (Enforce, GetRolesForUser, GetUsersForRole, GetImplicitRolesForUser, GetNamedImplicitPermissionsForUser, GetImplicitUsersForPermission) is parked inside its ka-th user-callback call " +
+			"(arm once, park the first caller reaching point ka = 1, 2, ... until A makes no more callback calls; cold and after a warm-up call), i.e. at every depth of Enforce / HasLink / getRoleManager / getRole; then either every second reader runs to completion and one writer must block until A is released (nested), " +
+			"or a second reader B is parked at its kb-th callback, A finishes (with whatever clean-up its read path has) and then B (crossed), or A is a writer parked in a callback of its write section and all readers must block (wfirst). " +
+			"Oracle: every read-only call must return what the same call returns on a quiescent twin (plain casbin.Enforcer, same model / policy / functions, used sequentially); writers' results and all questions re-asked after quiescence must agree with the twin after the same write; every wait has a 5 s watchdog (a hang is a violation). " +
 			"Guards: LoadPolicy only in histories whose other calls are readers (F19), the store then drifted out of band so that LoadPolicy changes the state; " +
-			"no matching function / pattern model in either stream (F20: probe only); UpdatePolicy targets from a reserved pool, each at most once per history (F08 of C06); " +
+			"no matching function / pattern model in the random stream; in the callback-forced stream a role matching function only in configurations that the static guard c13CbExposed proves free of temporary roles in a shared role manager " +
+			"(every subject asked about and every p.sub is a permanent role of the manager consulted, or the request domain has no stored manager) -- the exposed ones run from the F20 probe only; UpdatePolicy targets from a reserved pool, each at most once per history (F08 of C06); " +
 			"The slice returned by every GetPolicy call is kept and re-read after quiescence: it must not have changed (F38, repaired). " +
 			"Non-trivial = at least two calls of different goroutines overlapped in real time (by stamps) and one of them was a state-changing call (or the search had to try more than one order); " +
 			"distinct by (stream, model, multiset of call kinds per goroutine, hash of the multiset of overlapping kind pairs)."
@@ -1146,7 +1157,7 @@ func init() {
 			fmt.Sprintf("forced schedules: %d (adapter / matcher function / logger callbacks)", nForced),
 			fmt.Sprintf("linearization search: max nodes %d, mean nodes %.2f; GetPolicy calls whose returned slice was re-read after quiescence: %d", st.maxNodes, float64(st.sumNodes)/float64(st.total+1), st.getPolicy),
 			fmt.Sprintf("GOMAXPROCS=%d wall=%.1fs", runtime.GOMAXPROCS(0), time.Since(t0).Seconds()),
-			"guards: no LoadPolicy together with writers (F19); no pattern model / matching function in the random or forced stream (F20); UpdatePolicy targets from a reserved pool, each at most once (F08)",
+			"guards: no LoadPolicy together with writers (F19); no pattern model / matching function in the random stream, role matching function in the callback-forced stream only where no read call can create a temporary role in a shared role manager (static guard c13CbExposed; exposed configurations run from the F20 probe) (F20); UpdatePolicy targets from a reserved pool, each at most once (F08)",
 		)
 	})
 }
